@@ -682,6 +682,16 @@ func derivedLaws3(r *vlib.Run) {
 			ax := model3d.XYZ(rng.NormFloat64(), rng.NormFloat64(), rng.NormFloat64()).Normalize()
 			ang := rng.Float64() * 6
 			check("Rotate", mesh.Rotate(ax, ang), mapTris(want, model3d.Rotation(ax, ang).Apply))
+			if len(mod.faces) > 0 {
+				mn, mx := mod.faces[0][0], mod.faces[0][0]
+				for _, f := range mod.faces {
+					for _, p := range f {
+						mn, mx = mn.Min(p), mx.Max(p)
+					}
+				}
+				off := mn.Mid(mx).Scale(-1)
+				check("Center", mesh.Center(), mapTris(want, off.Add))
+			}
 		}
 		// AddMesh into a non-empty target
 		tgt, tmod, _, _ := randomMesh3(rng)
